@@ -64,6 +64,12 @@ type CryptoPolicy struct {
 	SessionCacheEvictionPolicy string
 }
 
+// useSharedIntermediateKeyCache reports whether sessions share a single intermediate key cache.
+// SharedIntermediateKeyCache is ignored if CacheIntermediateKeys is disabled.
+func (p *CryptoPolicy) useSharedIntermediateKeyCache() bool {
+	return p.CacheIntermediateKeys && p.SharedIntermediateKeyCache
+}
+
 // PolicyOption is used to configure a CryptoPolicy.
 type PolicyOption func(*CryptoPolicy)
 
